@@ -123,13 +123,19 @@ Definition grow_ok (o : string) (sd : gmap string (gset string)) (kids : gmap st
   set_Forall (λ x, x = p.1 ∨ (size (sdom_of sd p.1) < size (sdom_of sd x) ∧
                               set_Exists (λ q, x ∈ adj_of kids q ∧ (q = p.1 ∨ adj_of kids q = [x])) p.2)) p.2.
 
+(* the `frontier` queue ran to completion and met every node once: roots are distinct, and a member of a grown set that
+   is neither its root nor absorbed-through (more than sg_split_above children) is the root of a grown set *)
+Definition frontier_ok (kids : gmap string (list string)) (gs : list (string * gset string)) : Prop :=
+  NoDup gs.*1 ∧
+  Forall (λ p, set_Forall (λ x, x = p.1 ∨ ¬ sg_split_above < length (adj_of kids x) ∨ x ∈ gs.*1) p.2) gs.
+
 Definition cone_supergates (L : circuit) (o : string) : option (list Circuit) :=
   let co := cone L o in
   let av := avoid_table co o in
   let sd := sdom_table av in
   let kids := kids_of co o sd in
   let gs := grow_all (S (size co)) kids [o] in
-  if bool_decide (up_ok L o ∧ avoid_ok co o av ∧ Forall (grow_ok o sd kids) gs)
+  if bool_decide (up_ok L o ∧ avoid_ok co o av ∧ Forall (grow_ok o sd kids) gs ∧ frontier_ok kids gs)
   then Some ((λ p, mk_sg co p.1 p.2) <$> gs) else None.
 
 (* ================================================================ all cones, duplicates, minimal cover *)
